@@ -38,6 +38,15 @@ THEOREMS = [
     "HedVerif.C11.accept_value_rat",
     "HedVerif.C11.go_unit_first",
     "HedVerif.C11.unit_first_only_prefix_units",
+    "HedVerif.Units.digitsVal_append",
+    "HedVerif.Units.takeDigits_append",
+    "HedVerif.Units.parse_integer",
+    "HedVerif.Units.parse_decimal",
+    "HedVerif.Units.parse_fraction",
+    "HedVerif.Units.expOf_digits",
+    "HedVerif.Units.parse_scientific",
+    "HedVerif.Units.parse_sign",
+    "HedVerif.Units.parse_double_sign",
 ]
 BUDGET = {"quick": 900, "thorough": 3600}
 NUMS_OK = ["3", "-3", "+3", "3.5", ".5", "3.", "1e3", "1E-3", "0", "007", "12.25e+2"]
